@@ -59,25 +59,27 @@ type Cfg struct {
 	Filter int // controller level filter (hx.MkFilter index)
 	// SlowOn: the controller's filter takes one (virtual) second to decide about objects of this name with a version
 	// above 1 (a slow user predicate): the controller is legitimately busy while watch frames keep arriving
-	SlowOn       string
-	CancelOnList int  // the builder's context is cancelled as the n-th list call returns its (good) answer
-	CountAccepts bool // the controller filter counts the objects it is asked about (Obs.AcceptsAtReady)
-	StartRV      int  // the server's versions start above this (-1: the first object gets resourceVersion 0)
-	Period       time.Duration
-	Pre          []Mut
-	Hist         []Mut
-	ListFaults   map[int]fakeapi.ListFault
-	WatchFaults  map[int]fakeapi.WatchFault
-	DefaultWatch fakeapi.WatchFault
-	Tree         []hx.Spec
-	Close        CloseSpec
-	ReadAt       time.Duration // the observer looks at the system when it is quiescent at this virtual time
-	Bufsiz       int           // > 0: model value of EventBufsiz for this scenario
-	MapOrder     bool          // map iteration order is an explorer choice
-	APICalls     bool          // issue the public API calls again after shutdown (C12)
-	RaceAPI      bool          // a driver issues Subscribe/Clone/Refilter/List concurrently with everything else (C12)
-	Mode         string
-	Bound        int
+	SlowOn        string
+	SlowFor       time.Duration // how long the slow filter takes for that object (0 = 1s)
+	CancelOnFrame int           // the builder's context is cancelled as a watch stream has handed over its n-th frame (1-based)
+	CancelOnList  int           // the builder's context is cancelled as the n-th list call returns its (good) answer
+	CountAccepts  bool          // the controller filter counts the objects it is asked about (Obs.AcceptsAtReady)
+	StartRV       int           // the server's versions start above this (-1: the first object gets resourceVersion 0)
+	Period        time.Duration
+	Pre           []Mut
+	Hist          []Mut
+	ListFaults    map[int]fakeapi.ListFault
+	WatchFaults   map[int]fakeapi.WatchFault
+	DefaultWatch  fakeapi.WatchFault
+	Tree          []hx.Spec
+	Close         CloseSpec
+	ReadAt        time.Duration // the observer looks at the system when it is quiescent at this virtual time
+	Bufsiz        int           // > 0: model value of EventBufsiz for this scenario
+	MapOrder      bool          // map iteration order is an explorer choice
+	APICalls      bool          // issue the public API calls again after shutdown (C12)
+	RaceAPI       bool          // a driver issues Subscribe/Clone/Refilter/List concurrently with everything else (C12)
+	Mode          string
+	Bound         int
 }
 
 // Obs is what the observer and the drivers recorded.
@@ -137,6 +139,8 @@ type Inst struct {
 	cancel       context.CancelFunc
 	serverAtRead []metav1.Object
 	accepts      int
+	// Reached: reachability obligations (runner.Sc.Exists) this execution fulfils; set by the oracle
+	Reached map[string]bool
 }
 
 func (in *Inst) apply(m Mut) {
@@ -205,6 +209,13 @@ func (in *Inst) Run() {
 	}
 	ctx, cancel := context.WithCancel(logutil.NewContext(context.Background(), hx.Log))
 	in.cancel = cancel
+	if c.CancelOnFrame > 0 {
+		in.Srv.OnWatchFrame = func(idx int) {
+			if idx == c.CancelOnFrame-1 {
+				cancel()
+			}
+		}
+	}
 	if c.CancelOnList > 0 {
 		in.Srv.OnListReturn = func(n int) {
 			if n == c.CancelOnList {
@@ -431,6 +442,14 @@ func (in *Inst) postAPI() {
 	})
 }
 
+// Reach records that this execution fulfils a reachability obligation.
+func (in *Inst) Reach(what string) {
+	if in.Reached == nil {
+		in.Reached = map[string]bool{}
+	}
+	in.Reached[what] = true
+}
+
 func (in *Inst) controllerFilter() filter.Filter {
 	f := hx.MkFilter(in.C.Filter)
 	if in.C.CountAccepts {
@@ -446,7 +465,11 @@ func (in *Inst) controllerFilter() filter.Filter {
 	name := in.C.SlowOn
 	return filter.FN(func(o metav1.Object) bool {
 		if o.GetName() == name && hx.Ver(o) > 1 {
-			time.Sleep(time.Second)
+			d := in.C.SlowFor
+			if d == 0 {
+				d = time.Second
+			}
+			time.Sleep(d)
 		}
 		return f.Accept(o)
 	})
@@ -511,9 +534,10 @@ func (in *Inst) Outcome() string {
 
 // Scenario wraps a configuration and an oracle.
 func Scenario(prop string, c Cfg, oracle func(in *Inst, r *vs.Result) []string) runner.Sc {
+	name := fmt.Sprintf("%s/%s/%s%d", strings.ToLower(prop), c.Name, c.Mode, c.Bound)
 	return runner.Sc{
 		Scenario: explore.Scenario{
-			Name: fmt.Sprintf("%s/%s/%s%d", strings.ToLower(prop), c.Name, c.Mode, c.Bound), Mode: c.Mode, Bound: c.Bound,
+			Name: name, Mode: c.Mode, Bound: c.Bound,
 			Cfg: vs.Config{Timers: vs.TimersLazy, MaxSteps: 200000, Bufsiz: c.Bufsiz, MapOrder: c.MapOrder},
 			New: func() explore.Instance {
 				in := &Inst{C: c}
@@ -523,7 +547,11 @@ func Scenario(prop string, c Cfg, oracle func(in *Inst, r *vs.Result) []string) 
 						if hx.Drops > 0 {
 							d = 1
 						}
-						return map[string]int64{"executions_where_convergence_premise_held": in.Converged, "executions_with_overflow_drops": d}
+						m := map[string]int64{"executions_where_convergence_premise_held": in.Converged, "executions_with_overflow_drops": d}
+						for what := range in.Reached {
+							m[runner.ReachKey(name, what)] = 1
+						}
+						return m
 					}}
 			},
 		},
